@@ -29,8 +29,10 @@ def make_session(rng, name, length):
             acts.append({'act': 'run', 'd': rng.randrange(ND), 'p': rng.randrange(NP)})
         elif r < 0.6:
             acts.append({'act': 'seed', 'v': rng.randrange(100000)})
-        elif r < 0.72:
+        elif r < 0.67:
             acts.append({'act': 'draw', 'v': rng.randrange(5)})
+        elif r < 0.74:
+            acts.append({'act': 'gauss', 'v': rng.randrange(3)})
         elif r < 0.8:
             acts.append({'act': 'demo'})
         elif r < 0.9:
